@@ -895,6 +895,25 @@ impl rustc_driver::Callbacks for Facts {
                     let t = inst.instantiate_mir_and_normalize_erasing_regions(tcx, env, EarlyBinder::bind(decl.ty));
                     collect_fn_types(t, &mut mentioned, 0);
                 }
+                // function items passed as zero-sized constants show up only in the callee's generic arguments
+                for ga in inst.args.iter() {
+                    if let ty::GenericArgKind::Type(x) = ga.kind() {
+                        collect_fn_types(x, &mut mentioned, 0);
+                    }
+                }
+                for data in body.basic_blocks.iter() {
+                    if let TerminatorKind::Call { func, .. } = &data.terminator().kind {
+                        let fty = func.ty(&body.local_decls, tcx);
+                        let fty = inst.instantiate_mir_and_normalize_erasing_regions(tcx, env, EarlyBinder::bind(fty));
+                        if let ty::FnDef(_, ca) = fty.kind() {
+                            for ga in ca.iter() {
+                                if let ty::GenericArgKind::Type(x) = ga.kind() {
+                                    collect_fn_types(x, &mut mentioned, 0);
+                                }
+                            }
+                        }
+                    }
+                }
                 let mut refs = Vec::new();
                 let mut seen_ref: HashSet<String> = HashSet::new();
                 for (cd, ca, is_closure) in mentioned {
